@@ -54,6 +54,25 @@ def rand_spectrum(rng, shape, folded=False, labels=None, mask_mode=None, integer
     return fs
 
 
+def relayout(fs, rot=1):
+    """The same spectrum (values, mask, folding, labels) held in a non-C-contiguous memory layout: the axes are stored
+    in rotated order (rot=0: fully reversed = Fortran order), as the views returned by reorder_pops / transposes are."""
+    import dadi
+    import numpy.ma as ma
+    nd = fs.ndim
+    if nd < 2:
+        return fs
+    perm = list(reversed(range(nd))) if rot == 0 else [(a + rot) % nd for a in range(nd)]
+    if perm == list(range(nd)):
+        perm = list(reversed(range(nd)))
+    inv = [int(x) for x in np.argsort(perm)]
+
+    def rl(a):
+        return np.ascontiguousarray(np.asarray(a).transpose(perm)).transpose(inv)
+    out = dadi.Spectrum(rl(fs.data), mask=rl(ma.getmaskarray(fs)), mask_corners=False, data_folded=bool(fs.folded), pop_ids=fs.pop_ids)
+    return out
+
+
 def rand_shape(rng, ndim, lo=1, hi=6, unequal=True):
     while True:
         sh = [rng.randint(lo, hi) + 1 for _ in range(ndim)]
